@@ -9,6 +9,7 @@
    rewrite with these lemmas, and reason about the non-recursive bodies. *)
 From Coq Require Import ZArith List Bool.
 Require Import NS.theories.F64 NS.theories.StrLib NS.theories.Lang.
+Require NS.theories.NumParse NS.theories.CaseMap.
 Import ListNotations.
 Open Scope Z_scope.
 
@@ -39,11 +40,11 @@ Definition string_call (str : list Z) (f : name) (args : list expr) (s1 : st) : 
     | _ => PanicM PArgIndex
     end
   else if bytes_eqb f n_to_uppercase then
-    if is_ascii str then OkM (VStr (ascii_upper str), s1) else UnsuppM
+    OkM (VStr (CaseMap.to_upper str), s1)
   else if bytes_eqb f n_to_lowercase then
-    if is_ascii str then OkM (VStr (ascii_lower str), s1) else UnsuppM
+    OkM (VStr (CaseMap.to_lower str), s1)
   else if bytes_eqb f n_trim then OkM (VStr (trim str), s1)
-  else if bytes_eqb f n_to_number then UnsuppM
+  else if bytes_eqb f n_to_number then OkM (VNum (NumParse.to_number str), s1)
   else if bytes_eqb f n_find then
     match args with
     | a0 :: _ =>
